@@ -71,3 +71,5 @@ func sgn(x int) int {
 	}
 	return 0
 }
+
+func constantInt(k int64) constant.Value { return constant.MakeInt64(k) }
